@@ -121,13 +121,19 @@ def run(rep: Report) -> None:
             for name, via, wh, args in calls:
                 if not args:
                     continue
-                exp = {"d": E.S("ORG.d"), "w": E.S("ORG.w")}
+                exp = {"d": E.S("ORG.d"), "w": E.S("ORG.w"), "T": E.S("T"), "rho_crit": E.S("SELF.rho_crit")}
+                if cfg.u_origin == "MainstreamOrigin":
+                    exp.update({"v_ctrl": E.S("ORG.v_ctrl"), "a": E.S("SELF.a"), "v_free": E.S("SELF.v_free"),
+                                "lanes": E.S("SELF.lam")})
+                else:
+                    exp.update({"C": E.S("ORG.C"), "rho_max": E.S("SELF.rho_max")})
+                    exp.update({"r": E.S("ORG.r")} if cfg.u_origin == "MeteredOnRamp" else {"qdes": E.S("ORG.q")})
                 for k, v in exp.items():
                     a = args.get(k)
                     inner = a
                     if isinstance(a, tuple) and a and a[0] == "max":  # clamped initial queue
                         inner = a[2] if a[1] == E.ZERO else a[1]
                     if inner != v:
-                        ok, detail, where = False, f"argument `{k}` of {name} is {E.fmt(a, 80) if E.is_term(a) else a!r}, not the origin's own {k}", wh
+                        ok, detail, where = False, f"argument `{k}` of {name} is {E.fmt(a, 80) if E.is_term(a) else a!r}, not {E.fmt(v, 40)} (the origin's own variable / the parameter of the link it feeds)", wh
         rep.check(ok, "law-wired-to-own-variables", cfg.label(), where, detail,
                   key=f"wired|{cfg.u_origin}|{detail[:60]}")
